@@ -280,6 +280,25 @@ Proof. exact Pipeline_proofs.w_excl_disagree. Qed.
 Theorem C15_refines_refuted_jdk : Pipeline_proofs.disagree w_jdk_jdk_table w_jdk_repo w_jdk_root.
 Proof. exact Pipeline_proofs.w_jdk_disagree. Qed.
 
+(* F-C15-9: a negated JDK value (Maven: negated prefix; Go: the constraint parser rejects it and the
+   whole pipeline fails) *)
+Theorem C15_refines_refuted_jdk_negated : exists e (r : list dependency * list dependency),
+  effective w_jdkneg_jdk_table w_jdk w_os w_jdkneg_repo w_jdkneg_root = Err e /\
+  MavenModelSpec.effective w_jdkneg_jdk_table w_jdk w_os w_jdkneg_repo w_jdkneg_root = MavenModelSpec.SOk r /\
+  length (fst r) = 2%nat.
+Proof. exact Pipeline_proofs.w_jdkneg_rejected. Qed.
+
+(* the jdk condition as the specification itself evaluates it (JdkVersionProfileActivator): prefix,
+   negated prefix, ranges by comparison of number triples, no claim beyond three numbers *)
+Example C15_jdk_condition_examples :
+  MavenModelSpec.jdk_expect [49;49] [49;49;46;48;46;56] = Some true /\                       (* 11 under 11.0.8 *)
+  MavenModelSpec.jdk_expect [49;49;46;48;46;55] [49;49;46;48;46;56] = Some false /\          (* 11.0.7 *)
+  MavenModelSpec.jdk_expect [33;49;46;56] [49;49;46;48;46;56] = Some true /\                 (* !1.8 *)
+  MavenModelSpec.jdk_expect [91;49;49;44;49;55;41] [49;55;46;48;46;50] = Some false /\       (* [11,17) under 17.0.2 *)
+  MavenModelSpec.jdk_expect [40;44;49;49;46;48;46;56;93] [49;49;46;48;46;56] = Some true /\  (* (,11.0.8] *)
+  MavenModelSpec.jdk_expect [40;44;49;46;56;93] [49;46;56;46;48;95;50;57;50] = None.           (* (,1.8] under 1.8.0_292 *)
+Proof. exact Pipeline_proofs.jdk_condition_examples. Qed.
+
 Theorem C15_full_refuted : ~ C15_full.
 Proof. exact Pipeline_proofs.full_refuted. Qed.
 Print Assumptions C15_full_refuted.
